@@ -32,7 +32,7 @@ ToaOk(e) ==
     /\ Chk(<<"toa-panic", e.sf, e.bw>>, 0, e.panics)
 
 \* --- LDRO: one event = one implementation's decision for one (sf,bw)
-\* impl in {"calc", "sx126x", "sx1272", "sx1276", "lr1110"}; what in {"decision","written"}
+\* impl in {"calc", "sx126x", "sx1272", "sx1276", "lr1110"}; what in {"decision","written","prepared"}
 \* supported = 0 : the chip refuses the pair (nothing to check).
 \* The LDRO bit as programmed into the chip, decoded from the raw SPI writes:
 \*  sx126x  SetModulationParams (0x8B) byte 5;  lr1110 SetModulationParam (0x020F) byte 6;
@@ -50,7 +50,10 @@ LdroWritten(impl, txns) ==
 LdroOk(e) ==
     IF e.supported = 0 \/ LdroAmbiguous(e.sf, e.bw) THEN TRUE
     ELSE Chk(<<"ldro", e.impl, e.what, e.sf, e.bw>>, IF Ldro(e.sf, e.bw) THEN 1 ELSE 0,
-             IF e.what = "written" THEN LdroWritten(e.impl, e.txns) ELSE e.ldro)
+             \* "written": the writes of set_modulation_params alone; "prepared": the writes of set_modulation_params
+             \* followed by set_packet_params over a register file (the LAST write to the register that holds the
+             \* bit decides what the chip ends up with)
+             IF e.what \in {"written", "prepared"} THEN LdroWritten(e.impl, e.txns) ELSE e.ldro)
 
 \* all implementations agree with each other on one (sf,bw) (covers the ambiguous pair too)
 LdroAgreeOk(e) ==
